@@ -11,7 +11,7 @@ from .. import core, crash
 
 PID = "C11"
 LEVEL = "fault_enumeration"
-RULE = ("writers (sweep of 6 designs, NSGA-II 4x3 serial, NSGA-II 6x3 with 3 worker threads, eps-MOEA 4x2, OMOPSO 4x2, SMPSO 4x2, and one sync_all of 450 recorded designs carrying ~3 MB of custom data in a single transaction) with an SQLite store in "
+RULE = ("writers (sweep of 6 designs, NSGA-II 4x3 serial, NSGA-II 6x3 with 3 worker threads, eps-MOEA 4x2, OMOPSO 4x2, SMPSO 4x2, one sync_all of 450 recorded designs carrying ~3 MB of custom data in a single transaction, a sweep under lock contention, and a sweep by a second session that re-opens the file of a finished first session with the id counter of a fresh process) with an SQLite store in "
         "default thread-safe mode, created before crash points start counting, are killed (a) by os._exit at the k-th Python-level "
         "event: every sqlite3 connect, the moment before/after every execute and commit, objective entry/exit, return of every "
         "synchronisation (quick: every 3rd event of the serial writers, every 5th of the others; thorough: every event); (b) by "
@@ -373,6 +373,7 @@ def run_strace(ctx, kind, sc, part, parts):
 
 def requirements(ctx):
     ctx.require("post_mortems", 100)
+    ctx.require("post_mortems_of_a_resumed_session", 10)
     ctx.require("deaths_at_python_events", 80)
     ctx.require("returned_syncs_checked", 500)
     ctx.require("deaths_by_sigkill", 10)
